@@ -77,13 +77,13 @@ def correspond(ctx):
             total += 1
             dist[r.split("(")[0]] = dist.get(r.split("(")[0], 0) + 1
             f = o.split()
-            allowed = {"err old"} if f[1] == "readerr" else allowed_nospace(f)
+            allowed = {"err old"} if f[1] == "readerr" else ({"err old", "ok new"} if f[1] == "createcancel" else allowed_nospace(f))
             if r not in allowed and not any(v.signature == "c10-inline-" + f[1] for v in violations):
                 rp = C.write_replay("C10", "inline-" + f[1], {"property": "C10", "kind": "fault", "case": o, "observed": r, "allowed": sorted(allowed),
                                     "legend": "c10 nospace <roots> <content length> <capacity of root 1> <capacity of root 2> <partial write> <root with most free space has room>"})
                 violations.append(Violation("c10-inline-" + f[1], "inline write with fault `%s`: observed `%s`, allowed %s" % (o, r, sorted(allowed)), rp))
     cov = {"evaluations": total, "distinct_nontrivial": total,
-           "rule": "every line is a distinct (content length, fault position / capacities, fault kind, entry point) case; gRPC: lengths {1,2049,5000,32769,102400,…} x positions {0,1,len/2,len-1, chunk boundaries ±1} x {reader error, context cancel}; inline: reader errors at {0,1,len/2,len-1,32767,32768} and ENOSPC on 2-3 roots with capacities {0,1,50,32767,32768,32769,40000,70000} x {partial, all-or-nothing} x {largest root has room or not} through Set/SetReader/Create",
+           "rule": "every line is a distinct (content length, fault position / capacities, fault kind, entry point) case; gRPC: lengths {1,2049,5000,32769,102400,…} x positions {0,1,len/2,len-1, chunk boundaries ±1} x {reader error, context cancel}; inline: reader errors at {0,1,len/2,len-1,32767,32768} and ENOSPC on 2-3 roots with capacities {0,1,50,32767,32768,32769,40000,70000} x {partial, all-or-nothing} x {largest root has room or not} through Set/SetReader/Create; Create whose caller context is cancelled after k bytes (the rest still written, then Close): error + old value or nil + whole content, and no Get in between reads a part",
            "traces_validated_against_impl": total, "distribution": dist,
            "samples": [{"case": "c10 nospace 2 100000 32768 0 true true", "expected": "ok new"}],
            "summary": "%d fault cases: %s" % (total, dist)}
